@@ -8,7 +8,7 @@ from packaging.markers import Marker as PkgMarker
 from dep_logic.markers import AnyMarker, EmptyMarker, parse_marker
 
 from .. import oracle_marker as OM
-from ..mpools import CaseTimeout, atoms, environments, time_limit
+from ..mpools import CaseTimeout, atoms, environments, group_texts, time_limit
 from ..pools import Rng
 
 
@@ -27,7 +27,7 @@ WITNESS_TEXTS = [
 
 def build_pool(rng, tier):
     A = atoms()
-    texts = list(WITNESS_TEXTS) + list(A)
+    texts = list(WITNESS_TEXTS) + group_texts() + list(A)
     n2 = 120 if tier == "quick" else 500
     for _ in range(n2):
         a, b, c, d = rng.choice(A), rng.choice(A), rng.choice(A), rng.choice(A)
@@ -131,8 +131,12 @@ def run(tier="quick", seed=0, arg=None):
                 continue
             check_result(tag, r, exp, {"a": t, "op": tag})
     npairs = 400 if tier == "quick" else 4000
-    for i in range(npairs):
-        (ta, a), (tb, b) = rng.choice(pool), rng.choice(pool)
+    G = [(t, m) for t, m in pool if t in set(group_texts())]
+    group_pairs = [(x, y) for x in G for y in G if x[0].split()[0] == y[0].split()[0]]
+    if tier == "quick":
+        group_pairs = group_pairs[:: 3]
+    for i in range(npairs + len(group_pairs)):
+        (ta, a), (tb, b) = group_pairs[i - npairs] if i >= npairs else (rng.choice(pool), rng.choice(pool))
         va, vb = vec(a), vec(b)
         inp = {"a": ta, "b": tb}
         if len(set(va)) > 1 and len(set(vb)) > 1:
